@@ -40,8 +40,9 @@ fn serialize<Output: BinaryOutput>(&self, context: &mut SerializationContext<Out
 """
 
 DE_TMPL = """impl %(X)s {
+%(case_fns)s
 //#fn id=catalogue::%(X)s::deserialize tags=C02,C13,C14,C05 mode=body
-#[verifier::rlimit(100)]
+#[verifier::rlimit(300)]
 pub fn deserialize(context: &mut DeserializationContext<'_>) -> (r: Result<Self>)
     requires
         old(context).iwf(),
@@ -53,11 +54,14 @@ pub fn deserialize(context: &mut DeserializationContext<'_>) -> (r: Result<Self>
             // unknown or transient index: an error, never a panic
             Ok(i) => ((%(bad)s) ==> r is Err)
                 // the constructor is selected by the stored index alone
-                && (r is Ok ==> r->Ok_0.ctor_index() == i),
+                && (r is Ok ==> r->Ok_0.ctor_index() == i)%(cases)s,
         }),
 %(body)s
 }
 """
+
+
+ENUM_LEVEL_CASES = True
 
 
 def gen_enum_v0(d, expanded, H):
@@ -211,21 +215,89 @@ def gen_enum_v0(d, expanded, H):
     out.append(SER_TMPL % dict(X=X, idx=', '.join(arms_idx), ok=', '.join(arms_ok), enc=', '.join(arms_enc),
                                tbl=', '.join(arms_tbl), vwf=', '.join(arms_vwf), body=b))
     # ---- deserializer: emitted as an inherent fn (E9-like) with the C13 contract
+    import catgen_evolved
     db = H['norm_paths'](H['impl_fn'](expanded, 'BinaryDeserializer', X))
     ann_t = ("|_c: &mut DeserializationContext<'_>| -> (cr: Result<Self>)\n"
              '    requires old(_c).iwf(),\n    ensures final(_c).iwf(), final(_c).region_stack@.len() >= old(_c).region_stack@.len(), cr is Err,\n{')
-    ann_c = ("|context: &mut DeserializationContext<'_>| -> (cr: Result<Self>)\n"
-             '    requires old(context).iwf(),\n'
-             '    ensures final(context).iwf(), final(context).region_stack@.len() >= old(context).region_stack@.len(),\n'
-             '        cr is Ok ==> final(context).frame_eq(&*old(context)) && final(context).current.pos >= old(context).current.pos,\n'
-             '        cr is Ok ==> cr->Ok_0.ctor_index() == IDX,\n{')
     db = re.sub(r'(deserializer\.read_constructor\(\d+usize as u32,\s*)\|_\|(\s*)\{', lambda m: m.group(1) + ann_t, db)
-    db = re.sub(r'(deserializer\.read_constructor\((\d+)usize as u32,\s*)\|context\|(\s*)\{', lambda m: m.group(1) + ann_c.replace('IDX', m.group(2)), db)
-    # cases with evolution steps: fields may come from several chunks or from defaults -- the
-    # general (totality) summaries of read_field / read_optional_field
-    rl = 'lemma_rf_any, lemma_rof_any' if cores else 'lemma_rf_tuple, lemma_rof_tuple'
-    db = db.replace('{', '{\n        broadcast use {%s};\n        proof { reveal_strlits(); }' % rl, 1)
+    # per case: the field-level reader spec generated from the declaration (both stored forms, all
+    # chunks, declared defaults), where the declared defaults are literals the spec can name
+    by_idx = {v['idx']: v for v in d['variants']}
+    case_specs = {}
+    gv_arms = {}
+    for v in d['variants']:
+        if v['transient']:
+            continue
+        cs = ('%s_%s_metadata' % (X, v['name'])).upper()
+        try:
+            vsteps = H['metadata_steps'](expanded, cs)
+        except rx.Lost:
+            continue
+        core = catgen_evolved.Core(live(v['fields']), vsteps, lambda f: f['name'], H['strlit'])
+        rsp = catgen_evolved.reader_spec('%s_%s' % (X, v['name']), 'case %s::%s' % (X, v['name']), v['evolution'], vsteps, core, H['strlit'])
+        if rsp is None:
+            continue
+        G, spec_txt = rsp
+        lf = live(v['fields'])
+        gvt = '(' + ', '.join('%s.gv()' % f['name'] for f in lf) + (',' if len(lf) == 1 else '') + ')'
+        out.append(spec_txt)
+        out.append('impl %s {\n    /// ghost value of the fields of a %s (arbitrary for other constructors)\n    pub open spec fn gv_%s(&self) -> %s { match self { %s => %s, _ => arbitrary() } }\n}\n'
+                   % (X, v['name'], v['name'], G, pat_of(X, v), gvt))
+        trans = ''.join(' && (match cr->Ok_0 { %s => %s == (%s), _ => true })' % (pat_of(X, v), f['name'], f['transient'])
+                        for f in v['fields'] if f['transient'] is not None)
+        case_specs[v['idx']] = dict(N='%s_%s' % (X, v['name']), V=v['name'], k=core.k, trans=trans)
+
+    def ann_for(idx):
+        base = ("|context: &mut DeserializationContext<'_>| -> (cr: Result<Self>)\n"
+                '    requires old(context).iwf(),\n'
+                '    ensures final(context).iwf(), final(context).region_stack@.len() >= old(context).region_stack@.len(),\n'
+                '        cr is Ok ==> final(context).frame_eq(&*old(context)) && final(context).current.pos >= old(context).current.pos,\n'
+                '        cr is Ok ==> cr->Ok_0.ctor_index() == %d%s,\n' % (idx, case_specs[idx]['trans'] if idx in case_specs else ''))
+        if idx in case_specs:
+            c = case_specs[idx]
+            base += ('        // the case decoder is the declaration\'s reader, on exactly its own bytes\n'
+                     '        match dec_%(N)s(old(context).remaining(), old(context).state.val().strs()) {\n'
+                     '            Dec::Ok { v, n, t } => cr is Ok && cr->Ok_0.gv_%(V)s() == v && n <= old(context).remaining().len()\n'
+                     '                && final(context).remaining() =~= old(context).remaining().skip(n as int) && final(context).state.val().strs() == t,\n'
+                     '            Dec::Err => cr is Err,\n'
+                     '        },\n') % c
+        return base + '{'
+    pat = re.compile(r'(deserializer\.read_constructor\((\d+)usize as u32,\s*)\|context\|(\s*)\{')
+    pos = 0
+    occ = 0
+    case_fns = []
+    while True:
+        m = pat.search(db, pos)
+        if not m:
+            break
+        idx = int(m.group(2))
+        ob = m.end() - 1
+        cb = rx.match_close(db, ob)
+        body = db[ob:cb + 1]
+        head = m.group(1) + ann_for(idx)
+        if idx in case_specs:
+            # E16: the (non-capturing) case closure is outlined into a function with the same body
+            # and the same contract, verified on its own; the closure just calls it
+            occ += 1
+            fname = 'de_case_%d_%d' % (idx, occ)
+            body = catgen_evolved.annotate_reader(body, '%s case %d' % (X, idx), case_specs[idx]['k'])
+            body = body.replace('{', '{\n        broadcast use {lemma_rf_step, lemma_rof_step};\n        proof { reveal_strlits(); reveal(dec_%s); }' % case_specs[idx]['N'], 1)
+            contract = ann_for(idx)
+            contract = contract[contract.index('\n') + 1:].rstrip('{')
+            case_fns.append('//#fn id=catalogue::%s::deserialize::case%d_%d tags=C02,C03,C13,C14,C05,C06,C07 mode=body\n#[verifier::rlimit(200)]\nfn %s(context: &mut DeserializationContext<\'_>) -> (cr: Result<Self>)\n%s%s\n'
+                            % (X, idx, occ, fname, contract, body))
+            body = '{ Self::%s(context) }' % fname
+        db = db[:m.start()] + head + body[1:] + db[cb + 1:]
+        pos = m.start() + len(head) + len(body) - 1
+    db = db.replace('{', '{\n        broadcast use {lemma_rf_any, lemma_rof_any};\n        proof { reveal_strlits(); }', 1)
     trans_idx = [v['idx'] for v in d['variants'] if v['transient']]
     bad = ' || '.join(['i >= %d' % n] + ['i == %d' % t for t in trans_idx])
-    out.append(DE_TMPL % dict(X=X, bad=bad, body=db))
+    # enum level, headerless stored form: the selected case's reader decides value, consumption, table
+    rest = 'old(context).remaining().skip(1).skip(unleb_used(old(context).remaining().skip(1)) as int)'
+    cases = ''.join(
+        '\n                && (i == %d ==> match dec_%s(%s, old(context).state.val().strs()) {\n'
+        '                        Dec::Ok { v, n, t } => r is Ok && r->Ok_0.gv_%s() == v && final(context).remaining() =~= %s.skip(n as int) && final(context).state.val().strs() == t,\n'
+        '                        Dec::Err => r is Err,\n                    })' % (idx, c['N'], rest, c['V'], rest)
+        for idx, c in sorted(case_specs.items())) if (K == 1 and ENUM_LEVEL_CASES) else ''
+    out.append(DE_TMPL % dict(X=X, bad=bad, body=db, cases=cases, case_fns='\n'.join(case_fns)))
     return '\n'.join(out), sorted(lits)
